@@ -2,4 +2,5 @@ SPECIFICATION Spec
 INVARIANT Inv_StructuralHolds
 INVARIANT Inv_Steady
 INVARIANT Inv_LevelIsSteadyPlusDeviation
+INVARIANT Inv_ComplexPairs
 CHECK_DEADLOCK FALSE
